@@ -543,6 +543,10 @@ class Raw(E):
             return "idf(%s)" % n
         if self.kind == "neg":
             return "0 - (0 - %s)" % n
+        if self.kind == "bnot":
+            return "~~~(~~~ %s)" % n
+        if self.kind == "bnot1":
+            return "~~~ %s" % n
         raise ValueError(self.kind)
 
     def shape(self, cx, path):
@@ -552,10 +556,16 @@ class Raw(E):
             return "(K (I %d) %s)" % (cx.id("idf"), par(self.node, path + [1])[1](cx))
         if self.kind == "neg":
             return "(O L (S (O L %s)))" % par(self.node, path + [1, 0, 1])[1](cx)
+        if self.kind == "bnot":
+            # the operand of a unary operator is not a tail position (front/tailrec.c EXPR_BIN_NOT / EXPR_NOT)
+            return "(O (S (O %s)))" % par(self.node, path + [0, 0, 0])[1](cx)
+        if self.kind == "bnot1":
+            return "(O %s)" % par(self.node, path + [0])[1](cx)
         raise ValueError(self.kind)
 
     def ev(self, env):
-        return self.node.ev(env)
+        v = self.node.ev(env)
+        return (-v - 1) if self.kind == "bnot1" else v
 
     def sig(self):
         return "%s[%s]" % (self.kind, self.node.sig())
@@ -949,7 +959,7 @@ class Gen:
         if kind.endswith("-pipe"):
             call.form, call.k = "pipe", self.rng.randint(1, self.max_k(fn))
             kind = kind[:-5]
-        if kind in ("plus", "arg", "neg"):
+        if kind in ("plus", "arg", "neg", "bnot", "bnot1"):
             rest = Raw(kind, call)
         elif kind == "letres":
             rest = BlockN([("let", "res1", "int", call)], Var("res1"))
@@ -995,8 +1005,8 @@ class Gen:
         return p
 
 
-NONTAIL_KINDS = ["plus", "arg", "neg", "letres", "cond-operand", "not-last", "parencall", "block-shadow",
-                 "plus-pipe", "arg-pipe", "letres-pipe"]
+NONTAIL_KINDS = ["plus", "arg", "neg", "bnot", "bnot1", "letres", "cond-operand", "not-last", "parencall", "block-shadow",
+                 "plus-pipe", "arg-pipe", "letres-pipe", "bnot-pipe"]
 TAIL_FORMS = ["condq", "condif", "block", "sup", "matchsel", "matchopt", "iflet", "ifletsel"]
 
 
